@@ -10,7 +10,25 @@ import (
 // accesses from different goroutines, whether a schedule exists in which they are adjacent
 // (i.e. unordered by happens-before).  It returns a description of the first race found.
 func (m *Machine) predictRace() string {
-	ev := m.events
+	// keep synchronisation events and the memory accesses to shared state: everything reachable
+	// from the tracked roots now (objects created during the run included)
+	m.retrack()
+	var ev []Event
+	for _, e := range m.events {
+		if e.Kind == "rd" || e.Kind == "wr" {
+			if e.P != nil && !m.trackCell[e.P] {
+				continue
+			}
+			if e.M != nil && !m.trackMap[e.M] {
+				continue
+			}
+			// consecutive identical accesses by one goroutine carry no extra information
+			if k := len(ev); k > 0 && ev[k-1].G == e.G && ev[k-1].Kind == e.Kind && ev[k-1].Obj == e.Obj {
+				continue
+			}
+		}
+		ev = append(ev, e)
+	}
 	n := len(ev)
 	if n == 0 {
 		return ""
